@@ -123,6 +123,7 @@ class Interp:
                  summaries=None, depth=0):
         self.summaries = summaries
         self.depth = depth
+        self.trace_deref_stores = False   # also log stores through references that point into locals
         self.world = world
         self.body = body
         self.cfg = cfgmod.cfg_of(body)
@@ -149,7 +150,7 @@ class Interp:
         return None
 
     # ------------------------------------------------------------------ memory
-    def init_state(self, entry, env=None, cons=None):
+    def init_state(self, entry, env=None, cons=None, trace=()):
         e = {}
         for i in range(1, self.body.arg_count + 1):
             l = self.body.locals[i]
@@ -160,7 +161,7 @@ class Interp:
                 self.sym_types.setdefault("arg%d" % i, (l["tk"], l["adt"]))
         if env:
             e.update(env)
-        return State(entry, 0, e, dict(cons or {}), (), frozenset())
+        return State(entry, 0, e, dict(cons or {}), tuple(trace), frozenset())
 
     def canon(self, st, place):
         """place JSON -> canonical path (deref resolved through known refs)"""
@@ -378,8 +379,7 @@ class Interp:
                 # interval with a hole: keep interval (sound over-approximation)
                 s2.cons[a[1]] = ("ival", lo, hi)
             return [(s1, op == "Eq"), (s2, op == "Ne")]
-        if excl:
-            raise Undecided("ordering comparison on a value constrained by exclusions")
+        # exclusions are dropped for ordering comparisons (sound over-approximation)
         if op == "Lt":
             t, f = subrange(None, n - 1), subrange(n, None)
         elif op == "Le":
@@ -560,10 +560,10 @@ class Interp:
         return True
 
     # ------------------------------------------------------------------ stepping
-    def run(self, entry, stop=(), env=None, cons=None, stop_at_entry_again=False):
+    def run(self, entry, stop=(), env=None, cons=None, stop_at_entry_again=False, trace=()):
         self.outcomes = []
         self.npaths = 0
-        st0 = self.init_state(entry, env, cons)
+        st0 = self.init_state(entry, env, cons, trace)
         stop = set(stop)
         self._explore(st0, stop, entry if stop_at_entry_again else None, first=True)
         for o in self.outcomes:
@@ -605,7 +605,7 @@ class Interp:
         blks = self._loops()[h]
         s0 = st.fork()
         for l in self._loop_assigned_locals(h):
-            self._havoc(s0, (("L", l),), "loop%d" % h)
+            self._havoc(s0, (("L", l),), "loop%d:_%d" % (h, l))
         mem = set()
         for _round in range(4):
             sub = Interp(self.world, self.body, models=None, max_paths=4000, sym_types=self.sym_types,
@@ -636,7 +636,7 @@ class Interp:
                 break
             mem |= new
             for pth in new:
-                self._havoc(s0, pth, "loop%d" % h)
+                self._havoc(s0, pth, "loop%d:%s" % (h, pstr(pth)))
         return s0
 
     def _explore(self, st, stop, loop_entry, first=False, in_discovery=False):
@@ -684,7 +684,7 @@ class Interp:
                             s2 = st.fork()
                         path = self.canon(s2, s["place"])
                         self._write(s2, path, v)
-                        if path[0][0] in ("A", "S"):
+                        if path[0][0] in ("A", "S") or (self.trace_deref_stores and "deref" in s["place"]["proj"]):
                             s2.trace = s2.trace + (("store", bb, path, v),)
                         s2.idx = st.idx + 1
                         stack.append((s2, False))
@@ -820,7 +820,7 @@ class Interp:
                 for s2, rv in res:
                     if s2 is st:
                         s2 = st.fork()
-                    s2.trace = s2.trace + (("call", bb, name, tuple(args)),)
+                    s2.trace = s2.trace + (("call", bb, name, tuple(args), t["dest"]["local"]),)
                     outs.append((s2, rv))
                 return outs
         # unmodelled: havoc &mut arguments (only what the callee's summary says it may write, when the
@@ -850,7 +850,7 @@ class Interp:
                             tgt = args[i][1] + q[1:]
                             self._havoc(s2, tgt, "%d.a%d%s" % (bb, i, pstr(q[1:])))
                             s2.trace = s2.trace + (("havoc", bb, tgt, name),)
-        s2.trace = s2.trace + (("call", bb, name, tuple(args)),)
+        s2.trace = s2.trace + (("call", bb, name, tuple(args), t["dest"]["local"]),)
         dl = t["dest"]
         rv = SYM("ret:%d" % bb)
         self.ret_info["ret:%d" % bb] = (name, tuple(args))
@@ -1114,19 +1114,22 @@ def m_new_empty(interp, st, t, args, bb):
     return [(st, ("agg", "coll", (("<empty?>", B(True)),)))]
 
 
-def m_last_mut(interp, st, t, args, bb):
-    p = _coll_path(args[0])
-    if p is None:
-        return None
-    v = _coll_state(interp, st, p)
-    O = "core::option::Option"
-    if v[0] == "b":
-        if v[1]:
-            return [(st, VAR(O, "None", ()))]
-        return [(st, VAR(O, "Some", (("ref", p + (("f", "[]"),)),)))]
-    s1 = st.fork(); interp._write(s1, p + (("f", "<empty?>"),), B(True))
-    s2 = st.fork(); interp._write(s2, p + (("f", "<empty?>"),), B(False))
-    return [(s1, VAR(O, "None", ())), (s2, VAR(O, "Some", (("ref", p + (("f", "[]"),)),)))]
+def m_end_elem(which):
+    def model(interp, st, t, args, bb):
+        p = _coll_path(args[0])
+        if p is None:
+            return None
+        v = _coll_state(interp, st, p)
+        O = "core::option::Option"
+        el = ("ref", p + (("f", "<content>"), ("f", "[%s]" % which)))
+        if v[0] == "b":
+            if v[1]:
+                return [(st, VAR(O, "None", ()))]
+            return [(st, VAR(O, "Some", (el,)))]
+        s1 = st.fork(); interp._write(s1, p + (("f", "<empty?>"),), B(True))
+        s2 = st.fork(); interp._write(s2, p + (("f", "<empty?>"),), B(False))
+        return [(s1, VAR(O, "None", ())), (s2, VAR(O, "Some", (el,)))]
+    return model
 
 
 def m_bool_is_positive(interp, st, t, args, bb):
@@ -1198,10 +1201,10 @@ DEFAULT_MODELS = {
     "alloc::vec::Vec::clear": m_clear,
     "alloc::string::String::new": m_new_empty,
     "alloc::vec::Vec::new": m_new_empty,
-    "[T]::last_mut": m_last_mut,
-    "[T]::first_mut": m_last_mut,
-    "[T]::last": m_last_mut,
-    "[T]::first": m_last_mut,
+    "[T]::last_mut": m_end_elem("last"),
+    "[T]::first_mut": m_end_elem("first"),
+    "[T]::last": m_end_elem("last"),
+    "[T]::first": m_end_elem("first"),
     "core::num::<impl i32>::is_positive": m_bool_is_positive,
     "i32::is_positive": m_bool_is_positive,
     "*::Ord>::cmp": m_ord_cmp,
@@ -1223,7 +1226,7 @@ def _finite(v):
     return False
 
 
-def header_fixpoint(interp, header, h0_env, h0_cons, max_states=256, keep=None):
+def header_fixpoint(interp, header, h0_env, h0_cons, max_states=256, keep=None, trace=()):
     """All header states of the loop at `header` reachable from the initial header state, as a finite set.
 
     A header state is the environment at the loop header.  After one abstract iteration, every
@@ -1270,7 +1273,7 @@ def header_fixpoint(interp, header, h0_env, h0_cons, max_states=256, keep=None):
         if len(seen) > max_states:
             raise Undecided("loop header state explosion at bb%d" % header)
         states.append(env)
-        outs = interp.run(header, env=env, cons=dict(h0_cons), stop_at_entry_again=True)
+        outs = interp.run(header, env=env, cons=dict(h0_cons), stop_at_entry_again=True, trace=trace)
         results.append((env, list(outs)))
         for o in outs:
             if o.kind == "stop" and o.info == header:
